@@ -99,7 +99,7 @@ def _witness(m, shape, names, data, tm):
     return dict(shape=shape, blocks=blocks, timing=t)
 
 
-def task_shape(nblocks, nvars, por, perm, seq, timing, reset, cycles=2, toughreact=None):
+def task_shape(nblocks, nvars, por, perm, seq, timing, reset, cycles=2, toughreact=None, second=0, seed=0):
     ld, fs = _load()
     T = ld.t2incons
     np_ = ld.mulgrids.np
@@ -262,7 +262,9 @@ def task_shape(nblocks, nvars, por, perm, seq, timing, reset, cycles=2, toughrea
             ob(lines_equal(fs.files['f2'], fs.files['f3']), 'cycle: third write equals the second', None)
         return 'checked'
 
-    res = sym.explore(h, sym.Ctx(timeout_ms=180000), max_paths=3000, wall_s=1500)
+    cx = sym.Ctx(timeout_ms=180000)
+    cx.second_every, cx.second_offset = second, seed
+    res = sym.explore(h, cx, max_paths=3000, wall_s=1500)
     tr = report.summarize('shape ' + tag, res, failures, samples, extra=dict(distinct_obligations=len(distinct)))
     if not any(p.outcome == 'checked' for p in res['paths']):
         tr['error'] = 'vacuity: no path reached the obligations: %s' % tr['outcomes']
@@ -299,7 +301,7 @@ def shapes(tier):
 def run(tier, seed, rep):
     _load()
     sh = shapes(tier)
-    tasks = [(task_shape, s) for s in sh]
+    tasks = [(task_shape, dict(s, second=25, seed=seed) if tier == 'thorough' else s) for s in sh]
     # long tasks first
     tasks.sort(key=lambda t: -(t[1]['nblocks'] * 10 + t[1]['nvars']))
     rep.add_results(report.run_tasks(tasks))
